@@ -205,6 +205,11 @@ def _bad(out, fn, inp, want, got):
         out.append({"fn": fn, "input": inp, "want": _short(want), "got": _short(got)})
 
 
+def _short(x):
+    s = repr(x)
+    return s if len(s) <= 300 else s[:300] + "..."
+
+
 def _sorted_ints(v):
     """The order of the list returned by prime_factors is not part of the property (a
     factorisation is a multiset; the implementation's order is unspecified for large n):
@@ -491,7 +496,7 @@ MONADS = {
     "double": (_int, str, "fun c => double (fst c) =? snd c", lambda n: 2 * n),
     "halve": (_halve_ok, _halve_coq, "fun c => let '(p, q) := halve (fst c) in (p =? fst (snd c)) && (q =? snd (snd c))", ref_halve),
     "square": (_int, str, "fun c => square (fst c) =? snd c", lambda n: n * n),
-    "sqrt": (_sqrt_ok, lambda v: f"Some {v}" if _int(v) else "None", "fun c => oz_eqb (sqrt_exact (fst c)) (snd c)", ref_isqrt),
+    "sqrt": (_sqrt_ok, lambda v: f"Some {v}" if _int(v) else "(None : option Z)", "fun c => oz_eqb (sqrt_exact (fst c)) (snd c)", ref_isqrt),
 }
 SMALL = {
     "factorial": (_int, str, "fun c => factorial (fst c) =? snd c", math.factorial),
